@@ -314,12 +314,16 @@ func c11Check(c c11Case) kit.Outcome {
 				out.Nontrivial = true
 				out.Label("nt:cancel-rearm-clear")
 			}
-			for _, l := range model {
-				l.cancelled, l.err, l.arrived = false, nil, 0
+			for gi, l := range model {
+				// a cleared barrier expects what a new one expects (its initial count)
+				l.cancelled, l.err, l.arrived, l.count = false, nil, 0, obj.initial[gi]
 			}
 			obj.clear()
-			// The expected count after Clear is not part of the property: set it explicitly, as the
-			// orchestrator does before it uses a cleared barrier again.
+			// whoever waits on a barrier whose initial count is 0 is released by the clearing itself
+			if !settle(step, op) {
+				return out
+			}
+			// Then set the expected counts explicitly, as the orchestrator does before it uses a cleared barrier again.
 			for gi, go_ := range obj.gates {
 				if go_.setCount != nil {
 					n := op.N
@@ -468,7 +472,11 @@ func c11Gen(t *rapid.T) c11Case {
 		return c11Op{K: rapid.SampledFrom(kinds).Draw(t, "k"), Gate: rapid.IntRange(0, 3).Draw(t, "gate"),
 			N: small.Draw(t, "n"), N2: small.Draw(t, "n2"), Err: rapid.IntRange(0, 2).Draw(t, "err")}
 	})
-	return c11Case{Object: obj, Count: small.Draw(t, "count"), Ops: rapid.SliceOfN(opGen, 1, 40).Draw(t, "ops")}
+	count := small.Draw(t, "count")
+	if obj == "gate" && rapid.IntRange(0, 3).Draw(t, "zeroGate") == 0 {
+		count = 0 // like the init flow's registration gate: the condition holds as soon as the gate is cleared
+	}
+	return c11Case{Object: obj, Count: count, Ops: rapid.SliceOfN(opGen, 1, 40).Draw(t, "ops")}
 }
 
 // Regression cases: minimal reproductions kept from earlier failures (see known_findings.json).
@@ -480,6 +488,9 @@ func c11Fixed() []c11Case {
 		{Object: "gate", Count: 1, Ops: []c11Op{{K: "setcount", N: 0}, {K: "register", N: 1}, {K: "walk"}, {K: "register", N: 1}, {K: "wait"}, {K: "setcount", N: 1}}},
 		// cancellation survives re-arming and is removed by clear
 		{Object: "invokeflow", Ops: []c11Op{{K: "wait", Gate: 1}, {K: "cancel", Err: 1}, {K: "reset"}, {K: "wait", Gate: 0}, {K: "clear", N: 1, N2: 1}, {K: "wait", Gate: 2}, {K: "walk", Gate: 2}}},
+		// clearing a gate whose initial count is 0 completes the condition (0 arrivals of 0 expected): parked waiters return
+		{Object: "gate", Count: 0, Ops: []c11Op{{K: "setcount", N: 2}, {K: "walk"}, {K: "wait"}, {K: "wait"}, {K: "clear"}, {K: "wait"}}},
+		{Object: "initflow", Ops: []c11Op{{K: "setcount", Gate: 0, N: 2}, {K: "walk", Gate: 0}, {K: "wait", Gate: 0}, {K: "wait", Gate: 1}, {K: "clear"}, {K: "wait", Gate: 0}}},
 	}
 }
 
